@@ -332,6 +332,30 @@ class Ctx(object):
             raise RuntimeError("impl runner %s failed: %s" % (script, p.stderr[-3000:]))
         return json.loads(p.stdout)
 
+    def run_impl_cases(self, script, cases, jobs=8, timeout=1800, extra=None):
+        """the same for a payload {"cases": [...]} whose runner answers with one item per case: the cases are
+        split over `jobs` processes (each in its own directory), results concatenated in order"""
+        from concurrent.futures import ThreadPoolExecutor
+        if len(cases) < 4 * jobs:
+            return self.run_impl(script, dict(extra or {}, cases=cases), timeout=timeout)
+        size = (len(cases) + jobs - 1) // jobs
+        chunks = [cases[i:i + size] for i in range(0, len(cases), size)]
+
+        def one(k):
+            wd = os.path.join(self.workdir, "part%d" % k)
+            os.makedirs(wd, exist_ok=True)
+            p = subprocess.run([PY, os.path.join(HERE, script)], input=json.dumps(dict(extra or {}, cases=chunks[k])),
+                               env=self.impl_env(), capture_output=True, text=True, timeout=timeout, cwd=wd)
+            if p.returncode != 0:
+                raise RuntimeError("impl runner %s failed: %s" % (script, p.stderr[-3000:]))
+            r = json.loads(p.stdout)
+            if len(r) != len(chunks[k]):
+                raise RuntimeError("impl runner %s answered %d items for %d cases" % (script, len(r), len(chunks[k])))
+            return r
+        with ThreadPoolExecutor(max_workers=jobs) as ex:
+            parts = list(ex.map(one, range(len(chunks))))
+        return [x for part in parts for x in part]
+
     # -- verdict helpers
     def violation(self, what, replay, found_input=True):
         self.violations.append({"what": what, "replay": replay, "found_input": found_input})
